@@ -113,6 +113,9 @@ use tonic::{Request, Response, Status};
 
 #[path = "c13_x.rs"]
 mod x;
+// `qlim`: calls queued behind concurrency_limit_per_connection at the signal (seed C13i)
+#[path = "c13_q.rs"]
+mod q;
 
 // ---------------------------------------------------------------- script
 
@@ -1817,6 +1820,10 @@ async fn run(sc: Script) -> String {
 }
 
 pub fn execute(case: &str) -> String {
+    if case.starts_with("qlim ") {
+        let t: Vec<&str> = case.split(' ').collect();
+        return q::execute_qlim(&t);
+    }
     let sc = match parse(case) {
         Some(s) => s,
         None => return "bad-case".into(),
@@ -2734,7 +2741,9 @@ fn with_config(case: &str, rng: &mut Rng) -> String {
 pub fn generate(tier: &str, rng: &mut Rng) -> Vec<String> {
     let all = generate_scripts(tier, rng);
     // every generated stream also runs under the configuration knobs (the corpus has its own)
-    all.into_iter().map(|c| if c.starts_with("sc:corpus ") { c } else { with_config(&c, rng) }).collect()
+    let mut v: Vec<String> = all.into_iter().map(|c| if c.starts_with("sc:corpus ") { c } else { with_config(&c, rng) }).collect();
+    q::generate_qlim(&mut v);
+    v
 }
 
 fn generate_scripts(tier: &str, rng: &mut Rng) -> Vec<String> {
